@@ -21,6 +21,7 @@ import (
 	dbm "github.com/tendermint/tm-db"
 
 	"github.com/pokt-network/posmint/store/cachekv"
+	"github.com/pokt-network/posmint/store/cachemulti"
 	"github.com/pokt-network/posmint/store/dbadapter"
 	"github.com/pokt-network/posmint/store/gaskv"
 	"github.com/pokt-network/posmint/store/prefix"
@@ -146,7 +147,12 @@ func runProgram(r *rng.R, pid int, wo, wi *bufio.Writer) {
 	// ---- choose a stacking (bottom to top)
 	var kinds []string
 	noIter := false
-	switch r.Intn(10) {
+	viaCacheMulti := false
+	switch r.Intn(11) {
+	case 10: // a cache multistore branched from a cache multistore, tracing on (what runTx does per transaction)
+		kinds = []string{"trace", "cache", "trace", "cache"}
+		noIter = true
+		viaCacheMulti = true
 	case 9: // the stores' own CacheWrap / CacheWrapWithTrace over a prefix store
 		kinds = []string{"prefix", "trace", "cache"}
 		if r.Bool() {
@@ -225,6 +231,21 @@ func runProgram(r *rng.R, pid int, wo, wi *bufio.Writer) {
 	db := dbm.NewMemDB()
 	layers := []layer{{kind: "base", st: dbadapter.Store{DB: db}}}
 	desc := []string{}
+	if viaCacheMulti {
+		// level 1 = cachemulti over the base store, level 2 = level1.CacheMultiStore(); every level wraps each store as
+		// cache-over-trace. The two trace layers stay addressable through equivalent (stateless) instances.
+		key := stypes.NewKVStoreKey("k")
+		base := layers[0].st
+		l1 := cachemulti.NewStore(db, map[stypes.StoreKey]stypes.CacheWrapper{key: base}, map[string]stypes.StoreKey{"k": key}, tb, nil)
+		st1 := l1.GetKVStore(key)
+		l2 := l1.CacheMultiStore()
+		st2 := l2.GetKVStore(key)
+		layers = append(layers, layer{kind: "trace", st: tracekv.NewStore(base, tb, nil)}, layer{kind: "cache", st: st1},
+			layer{kind: "trace", st: tracekv.NewStore(st1, tb, nil)}, layer{kind: "cache", st: st2})
+		desc = append(desc, "trace", "cache", "trace", "cache")
+		kinds = nil
+		stats["built/cachemulti-two-levels"]++
+	}
 	for _, k := range kinds {
 		top := layers[len(layers)-1].st
 		switch k {
@@ -326,7 +347,12 @@ func runProgram(r *rng.R, pid int, wo, wi *bufio.Writer) {
 		if !noIter {
 			return true
 		}
-		return d != top // the top cache sits on a trace store
+		for j := 1; j <= d; j++ { // no iteration through a cache that sits on a trace store (the model does not describe its trace)
+			if layers[j].kind == "cache" && layers[j-1].kind == "trace" {
+				return false
+			}
+		}
+		return true
 	}
 	for i := 0; i < nops; i++ {
 		d := pickDepth()
